@@ -29,6 +29,7 @@ DT_CORE = [
     "dt(2020,3,29,2,30,tz=Z('Europe/Amsterdam'))", "dt(2020,10,25,2,30,tz=Z('Europe/Amsterdam'))",
     "dt(2020,6,1,12,0,0,tz=Z('UTC'))", "dt(2020,6,1,12,0,0,5,tz=off(5,30))", "dt(2020,6,1,12,0,0,tz=off(5,neg=True))",
     "dt(2020,6,1,12,0,0,tz=off(14))", "dt(2020,6,1,12,0,0,tz=off(12,neg=True))", "dt(2020,6,1,12,0,0,tz=off(1,2,3))",
+    "dt(999,6,1,12,0,0,tz=off(5,30))", "dt(1,1,2,0,0,0,7,tz=off(1))", "dt(45,3,15,12,0,0,tz=off(2,neg=True))",
     "dt(2021,1,1,0,0,0,tz=Z('America/New_York'))", "dt(2021,4,4,1,45,tz=Z('Australia/Lord_Howe'))",
     "'2022-02-02T02:02:02.123456+00:00'", "'2022-02-02 02:02:02'", "'2022-02-02T02:02:02Z'", "'2022-02-02T02:02:02+0530'",
     "1600000000", "1600000000.5", "0", "-1",
